@@ -5,12 +5,20 @@ from extract import Ann
 
 NAME = "V-compound"
 SRC = "oxmpl/src/base/spaces/compound_state_space.rs"
-SOURCES = [SRC]
+ANY = "oxmpl/src/base/spaces/any_state_space.rs"
+SE2 = "oxmpl/src/base/spaces/se2_state_space.rs"
+SE3 = "oxmpl/src/base/spaces/se3_state_space.rs"
+SOURCES = [SRC, ANY, SE2, SE3]
 PRELUDE = ["core.rs", "spaces.rs"]
 SERVES = ["C13", "C09"]
-FUNCTIONS = [SRC + "::CompoundStateSpace::" + f for f in ("new", "distance", "interpolate", "enforce_bounds", "satisfies_bounds", "get_longest_valid_segment_length")]
-TRUSTED = ["verus/prelude/spaces.rs: contract of the type-erased AnyStateSpace interface (deterministic component functions); the downcasting blanket impl is covered by Engine K",
-           "f64 sqrt / powi as deterministic uninterpreted functions (prelude core.rs)"]
+FUNCTIONS = [SRC + "::CompoundStateSpace::" + f for f in ("new", "distance", "interpolate", "sample_uniform", "enforce_bounds", "satisfies_bounds", "get_longest_valid_segment_length")] + \
+    [ANY + "::<T as AnyStateSpace>::" + f for f in ("distance_dyn", "interpolate_dyn", "enforce_bounds_dyn", "satisfies_bounds_dyn", "get_longest_valid_segment_length_dyn")] + \
+    [f_ + "::" + t + "::" + f for f_, t in ((SE2, "SE2StateSpace"), (SE3, "SE3StateSpace")) for f in ("new", "distance", "interpolate", "enforce_bounds", "satisfies_bounds", "sample_uniform", "get_longest_valid_segment_length")]
+TRUSTED = ["verus/prelude/spaces.rs: the AnyStateSpace trait DECLARATION with its contract replaces the declaration in any_state_space.rs (the blanket impl with the downcasts IS verified against it); std::any::Any downcasts as the spec function dc::<S>() (downcast_state_ref / downcast_state_mut_unwrap stubs); compound_as_dyn_mut / rng_as_dyn stand for `&mut` unsizing coercions",
+           "component spaces RealVectorStateSpace / SO2StateSpace / SO3StateSpace are opaque stubs in this unit (uninterpreted deterministic component functions, constructor = uninterpreted function new_spec_*)",
+           "AnyStateSpace::sample_uniform_dyn of the blanket impl is external_body (local struct + impl inside the function body); Clone impls are external",
+           "struct definitions CompoundState / SE2State / SE3State are prelude text",
+           "f64 sqrt / powi / + / * as deterministic uninterpreted functions (prelude core.rs)"]
 
 
 def _pre(text):
@@ -19,29 +27,58 @@ def _pre(text):
         return "assert_eq_usize(%s, %s);" % (m.group(1).strip(), m.group(2).strip()) + "\n" * m.group(0).count("\n")
     text = re.sub(r'assert_eq!\(\s*([^,]+),\s*([^,]+),\s*"[^"]*"\s*,?\s*\);', rep, text)
     text = text.replace("#[derive(Clone)]\npub struct CompoundStateSpace", "\npub struct CompoundStateSpace")
-    # sample_uniform is NOT part of this unit (rand's RngCore object is outside the stubs): its body is blanked (line preserving)
-    m = re.search(r'fn sample_uniform\(&self, rng: &mut impl Rng\) -> Result<Self::StateType, StateSamplingError> \{\n(.*?)\n    \}\n', text, re.S)
-    if m:
-        body = m.group(1)
-        text = text[:m.start(1)] + "        unimplemented!()" + "\n" * body.count("\n") + text[m.end(1):]
+    # unit rule RD4
+    text = text.replace('sample_uniform_dyn(rng)', 'sample_uniform_dyn(rng_as_dyn(rng))')
+    # unit rule RD5: type annotation only (the invariant mentions `components` before inference has fixed its type)
+    text = text.replace('let mut components = Vec::with_capacity(', 'let mut components: Vec<Box<dyn State>> = Vec::with_capacity(')
     return text
 
 
-PREPROCESS = {SRC: _pre}
+
+
+def _blank(text, a, b):
+    """blank text[a:b] keeping the newlines"""
+    return text[:a] + "".join(ch if ch == "\n" else " " for ch in text[a:b]) + text[b:]
+
+
+def _pre_any(text):
+    # the trait declarations and the clone_box plumbing are replaced by the contract trait of prelude spaces.rs: everything before
+    # the blanket impl is blanked (line preserving)
+    i = text.index("impl<T: StateSpace + Clone + 'static> AnyStateSpace for T")
+    text = _blank(text, 0, i)
+    # unit rule RD2 / RD1: Any downcasts of state objects -> the prelude's downcast functions
+    def rep_mut(m):
+        return "downcast_state_mut_unwrap::<%s>(%s)" % (m.group(2), m.group(1)) + "\n" * m.group(0).count("\n")
+    text = re.sub(r'\((\w+) as &mut dyn Any\)\s*\.downcast_mut::<([\w:]+)>\(\)\s*\.unwrap\(\)', rep_mut, text)
+    text = re.sub(r'\((\w+) as &dyn Any\)\.downcast_ref::<([\w:]+)>\(\)', r'downcast_state_ref::<\2>(\1)', text)
+    # sample_uniform_dyn (local struct + impl inside a function body, rand's RngCore) is not part of this unit
+    m = re.search(r'fn sample_uniform_dyn\([^)]*\) -> Result<Box<dyn State>, StateSamplingError> \{\n(.*?)\n    \}\n', text, re.S)
+    text = text[:m.start(1)] + "        unimplemented!()" + "\n" * m.group(1).count("\n") + text[m.end(1):]
+    return text
+
+
+def _pre_se(text):
+    text = text.replace("rand::Rng", "Rng").replace("crate::base::error::StateSamplingError", "StateSamplingError")
+    # unit rule RD3: `&mut state.0` where `&mut dyn State` is expected
+    text = re.sub(r'&mut state\.0\)', 'compound_as_dyn_mut(&mut state.0))', text)
+    return text
+
+
+PREPROCESS = {SRC: _pre, ANY: _pre_any, SE2: _pre_se, SE3: _pre_se}
 EXTRA_RULES = {SRC: [("R19", r'\b(total_\w+) \+=', r'\1 = \1 +', "`x += e` on f64 -> `x = x + e` (Verus crashes on float compound assignment)")]}
 # the StateSpace contract for this unit: well-typed states (one component per subspace, of the subspace's type) are a precondition
 PRELUDE_EDITS = [
     ("    fn distance(&self, state1: &Self::StateType, state2: &Self::StateType) -> (r: f64)\n        ensures r == self.dist_spec(state1, state2);\n",
-     "    fn distance(&self, state1: &Self::StateType, state2: &Self::StateType) -> (r: f64) requires self.state_ok(state1), self.state_ok(state2),\n        ensures r == self.dist_spec(state1, state2);\n"),
+     "    fn distance(&self, state1: &Self::StateType, state2: &Self::StateType) -> (r: f64) requires self.state_ok(state1), self.state_ok(state2),\n        ensures r == self.dist_spec(state1, state2);     //@ space.distance.law [C13,C09]\n"),
     ("    fn satisfies_bounds(&self, state: &Self::StateType) -> (r: bool)\n        ensures r == self.in_bounds_spec(state);\n",
-     "    fn satisfies_bounds(&self, state: &Self::StateType) -> (r: bool) requires self.state_ok(state),\n        ensures r == self.in_bounds_spec(state);\n"),
+     "    fn satisfies_bounds(&self, state: &Self::StateType) -> (r: bool) requires self.state_ok(state),\n        ensures r == self.in_bounds_spec(state);     //@ space.satisfies_bounds.law [C13]\n"),
     ("    spec fn in_bounds_spec(&self, a: &Self::StateType) -> bool;\n", "    spec fn in_bounds_spec(&self, a: &Self::StateType) -> bool; spec fn state_ok(&self, a: &Self::StateType) -> bool; spec fn space_ok(&self) -> bool;\n"),
     ("    fn interpolate(&self, from: &Self::StateType, to: &Self::StateType, t: f64, state: &mut Self::StateType)\n        ensures *final(state) == self.interp_spec(from, to, t);\n",
-     "    fn interpolate(&self, from: &Self::StateType, to: &Self::StateType, t: f64, state: &mut Self::StateType) requires self.state_ok(from), self.state_ok(to), self.state_ok(old(state)),\n        ensures self.interp_rel(from, to, t, final(state)), self.state_ok(final(state));\n"),
+     "    fn interpolate(&self, from: &Self::StateType, to: &Self::StateType, t: f64, state: &mut Self::StateType) requires self.state_ok(from), self.state_ok(to), self.state_ok(old(state)),\n        ensures self.interp_rel(from, to, t, final(state)), self.state_ok(final(state));     //@ space.interpolate.law [C13]\n"),
     ("    fn enforce_bounds(&self, state: &mut Self::StateType);\n",
-     "    spec fn interp_rel(&self, from: &Self::StateType, to: &Self::StateType, t: f64, out: &Self::StateType) -> bool; spec fn enforce_rel(&self, before: &Self::StateType, after: &Self::StateType) -> bool; fn enforce_bounds(&self, state: &mut Self::StateType) requires self.state_ok(old(state)), ensures self.enforce_rel(old(state), final(state)), self.state_ok(final(state));\n"),
+     "    spec fn interp_rel(&self, from: &Self::StateType, to: &Self::StateType, t: f64, out: &Self::StateType) -> bool; spec fn enforce_rel(&self, before: &Self::StateType, after: &Self::StateType) -> bool; fn enforce_bounds(&self, state: &mut Self::StateType) requires self.state_ok(old(state)), ensures self.enforce_rel(old(state), final(state)), self.state_ok(final(state));     //@ space.enforce_bounds.law [C13]\n"),
     ("    fn get_longest_valid_segment_length(&self) -> (r: f64)\n        ensures r == self.lvsl_spec();\n",
-     "    fn get_longest_valid_segment_length(&self) -> (r: f64) requires self.space_ok(),\n        ensures r == self.lvsl_spec();\n"),
+     "    fn get_longest_valid_segment_length(&self) -> (r: f64) requires self.space_ok(),\n        ensures r == self.lvsl_spec();     //@ space.lvsl.law [C13]\n"),
 ]
 
 A = []
@@ -51,12 +88,50 @@ def ann(*a, **k):
     A.append(Ann(*a, **k))
 
 
-VOCAB = r'''
+def _stub_space(name, new_sig, specsig, specargs):
+    return (r'''
+// stub of the component space %(n)s (its own code is under contract in the Kani harnesses, not in this unit): an opaque type
+// whose type-erased interface is a set of uninterpreted deterministic functions
+#[verifier::external_body]
+pub struct %(n)s { _p: u8 }
+pub uninterp spec fn new_spec_%(n)s(%(specsig)s) -> Result<%(n)s, StateSpaceError>;
+pub open spec fn dynbox_%(n)s(x: %(n)s) -> Box<dyn AnyStateSpace> { Box::new(x) }      // the unsizing coercion the compiler inserts
+impl %(n)s {
+    #[verifier::external_body]
+    pub fn new(%(sig)s) -> (r: Result<Self, StateSpaceError>)
+        ensures r == new_spec_%(n)s(%(specargs)s),
+    { unimplemented!() }
+}
+impl AnyStateSpace for %(n)s {
+    uninterp spec fn dyn_space_ok(&self) -> bool;
+    uninterp spec fn dyn_dist(&self, a: &dyn State, b: &dyn State) -> f64;
+    uninterp spec fn dyn_in_bounds(&self, a: &dyn State) -> bool;
+    uninterp spec fn dyn_lvsl(&self) -> f64;
+    uninterp spec fn dyn_accepts(&self, a: &dyn State) -> bool;
+    uninterp spec fn dyn_sample_set(&self, a: &dyn State) -> bool;
+    uninterp spec fn dyn_interp_rel(&self, from: &dyn State, to: &dyn State, t: f64, out: &dyn State) -> bool;
+    uninterp spec fn dyn_enforce_rel(&self, before: &dyn State, after: &dyn State) -> bool;
+    #[verifier::external_body] fn distance_dyn(&self, state1: &dyn State, state2: &dyn State) -> (r: f64) { unimplemented!() }
+    #[verifier::external_body] fn satisfies_bounds_dyn(&self, state: &dyn State) -> (r: bool) { unimplemented!() }
+    #[verifier::external_body] fn get_longest_valid_segment_length_dyn(&self) -> (r: f64) { unimplemented!() }
+    #[verifier::external_body] fn sample_uniform_dyn(&self, rng: &mut dyn RngCore) -> Result<Box<dyn State>, StateSamplingError> { unimplemented!() }
+    #[verifier::external_body] fn interpolate_dyn(&self, from: &dyn State, to: &dyn State, t: f64, state: &mut dyn State) { unimplemented!() }
+    #[verifier::external_body] fn enforce_bounds_dyn(&self, state: &mut dyn State) { unimplemented!() }
+}
+''' % dict(n=name, sig=new_sig, specsig=specsig, specargs=specargs))
+
+
+STUBS = _stub_space("RealVectorStateSpace", "dimension: usize, bounds_option: Option<Vec<(f64, f64)>>", "dimension: usize, bounds: Option<Seq<(f64, f64)>>",
+                "dimension, match bounds_option { Some(v) => Some(v@), None => None }") + \
+    _stub_space("SO2StateSpace", "bounds_option: Option<(f64, f64)>", "bounds: Option<(f64, f64)>", "bounds_option") + _stub_space("SO3StateSpace", "bounds_option: Option<(SO3State, f64)>", "bounds: Option<(SO3State, f64)>", "bounds_option") + \
+    "#[verifier::external_body]\npub struct SO3State { _p: u8 }\n"
+
+VOCAB = STUBS + r'''
 #[verifier::external_body]
 pub fn assert_eq_usize(a: usize, b: usize)      // unit rule: assert_eq!(a, b, "..")
     requires a == b      //@ assert_eq.holds [C13,C08]
 { assert_eq!(a, b); }
-impl State for CompoundState { }
+impl Clone for CompoundStateSpace { #[verifier::external_body] fn clone(&self) -> Self { unimplemented!() } }     // the real one is derived through Box<dyn AnyStateSpace>::clone_box
 
 // ---- the documented composition law (C13)
 /// sum_{i < n} (d_i * w_i)^2, accumulated left to right starting from 0.0 exactly as the code does
@@ -85,7 +160,7 @@ ann('fn new', 'sig', r'''
 
 ann('impl#2', 'impl-start', r'''
     open spec fn state_ok(&self, s: &CompoundState) -> bool { self.wf() && self.typed(s) }
-    open spec fn space_ok(&self) -> bool { self.wf() }
+    open spec fn space_ok(&self) -> bool { self.wf() && forall|i: int| 0 <= i < self.subspaces@.len() ==> (#[trigger] self.subspaces@[i]).dyn_space_ok() }
     /// C13: distance == sqrt( sum (d_i * w_i)^2 )
     open spec fn dist_spec(&self, a: &CompoundState, b: &CompoundState) -> f64 {
         f64_fn1(2, sq_sum(self.comp_dist(a, b), self.weights@, self.subspaces@.len() as int))        //@ distance_law [C13,C09]
@@ -108,10 +183,20 @@ ann('impl#2', 'impl-start', r'''
         &&& after.components@.len() == self.subspaces@.len()
         &&& forall|i: int| 0 <= i < self.subspaces@.len() ==> (#[trigger] self.subspaces@[i]).dyn_enforce_rel(&*before.components@[i], &*after.components@[i])     //@ enforce_law [C13]
     }
-    uninterp spec fn sample_set(&self, s: &CompoundState) -> bool;
+    /// C13: sampling draws every component from its own space, in order
+    open spec fn sample_set(&self, s: &CompoundState) -> bool {
+        &&& s.components@.len() == self.subspaces@.len()
+        &&& forall|i: int| 0 <= i < self.subspaces@.len() ==> (#[trigger] self.subspaces@[i]).dyn_sample_set(&*s.components@[i]) && self.subspaces@[i].dyn_accepts(&*s.components@[i])     //@ sample_law [C13]
+    }
 ''', 'cs.stspecs', tags=['C13'])
-for f in ('sample_uniform',):
-    ann('fn ' + f, 'attr', '#[verifier::external_body]', 'cs.%s.ext' % f)
+ann('fn sample_uniform', 'loop while#1', r'''
+            invariant
+                subspace__k <= self.subspaces@.len(),
+                components@.len() == subspace__k,
+                rng.det() == old(rng).det(),
+                forall|j: int| 0 <= j < subspace__k ==> (#[trigger] self.subspaces@[j]).dyn_sample_set(&*components@[j]) && self.subspaces@[j].dyn_accepts(&*components@[j]),     //@ prefix_sampled [C13]
+            decreases self.subspaces@.len() - subspace__k,
+''', 'cs.sample.loop', tags=['C13'])
 ann('fn distance', 'body-start', 'proof { ax_f64_obeys(); }', 'cs.distance.ax')
 ann('fn distance', 'loop for#1', r'''
             invariant
@@ -144,13 +229,64 @@ ann('fn enforce_bounds', 'loop for#1', r'''
 ann('fn get_longest_valid_segment_length', 'body-start', 'proof { ax_f64_obeys(); }', 'cs.lvsl.ax')
 ann('fn get_longest_valid_segment_length', 'loop for#1', r'''
             invariant
-                self.wf(),
+                self.space_ok(),
                 0 <= i <= self.subspaces@.len(),
                 <f64 as AddSpec>::obeys_add_spec(), <f64 as MulSpec>::obeys_mul_spec(),
                 total_longest_valid_segment_length_sq == sq_sum(self.comp_lvsl(), self.weights@, i as int),     //@ partial_sum [C13]
 ''', 'cs.lvsl.loop', tags=['C13'])
 
-ANNS = {SRC: A}
+B = []   # any_state_space.rs
+B.append(Ann('impl#1', 'impl-start', r'''
+    // the type-erased interface IS the concrete space's interface on the downcast states (C13 mechanism "per-component *_dyn calls")
+    open spec fn dyn_space_ok(&self) -> bool { self.space_ok() }
+    open spec fn dyn_accepts(&self, a: &dyn State) -> bool { dc::<T::StateType>(a) is Some && self.state_ok(&dc::<T::StateType>(a).unwrap()) }
+    open spec fn dyn_dist(&self, a: &dyn State, b: &dyn State) -> f64 { self.dist_spec(&dc::<T::StateType>(a).unwrap(), &dc::<T::StateType>(b).unwrap()) }     //@ any.distance_is_concrete [C13,C09]
+    open spec fn dyn_in_bounds(&self, a: &dyn State) -> bool { self.in_bounds_spec(&dc::<T::StateType>(a).unwrap()) }     //@ any.bounds_is_concrete [C13]
+    open spec fn dyn_lvsl(&self) -> f64 { self.lvsl_spec() }     //@ any.lvsl_is_concrete [C13]
+    open spec fn dyn_sample_set(&self, a: &dyn State) -> bool { dc::<T::StateType>(a) is Some && self.sample_set(&dc::<T::StateType>(a).unwrap()) }
+    open spec fn dyn_interp_rel(&self, from: &dyn State, to: &dyn State, t: f64, out: &dyn State) -> bool {
+        dc::<T::StateType>(out) is Some && self.interp_rel(&dc::<T::StateType>(from).unwrap(), &dc::<T::StateType>(to).unwrap(), t, &dc::<T::StateType>(out).unwrap())     //@ any.interp_is_concrete [C13]
+    }
+    open spec fn dyn_enforce_rel(&self, before: &dyn State, after: &dyn State) -> bool {
+        dc::<T::StateType>(after) is Some && self.enforce_rel(&dc::<T::StateType>(before).unwrap(), &dc::<T::StateType>(after).unwrap())     //@ any.enforce_is_concrete [C13]
+    }
+''', 'any.specs', tags=['C13']))
+B.append(Ann('fn sample_uniform_dyn', 'attr', '#[verifier::external_body]', 'any.sample.ext'))
+
+
+def se_anns(ty, st):
+    S = []
+    S.append(Ann('impl#2', 'impl-start', (r'''
+    // C13: %(ty)s behaves exactly as its inner compound space on the inner compound state
+    open spec fn state_ok(&self, s: &%(st)s) -> bool { self.0.state_ok(&s.0) }
+    open spec fn space_ok(&self) -> bool { self.0.space_ok() }
+    open spec fn dist_spec(&self, a: &%(st)s, b: &%(st)s) -> f64 { self.0.dist_spec(&a.0, &b.0) }     //@ se.distance_is_compound [C13,C09]
+    open spec fn in_bounds_spec(&self, s: &%(st)s) -> bool { self.0.in_bounds_spec(&s.0) }     //@ se.bounds_is_compound [C13]
+    open spec fn lvsl_spec(&self) -> f64 { self.0.lvsl_spec() }     //@ se.lvsl_is_compound [C13]
+    uninterp spec fn interp_spec(&self, a: &%(st)s, b: &%(st)s, t: f64) -> %(st)s;
+    open spec fn interp_rel(&self, from: &%(st)s, to: &%(st)s, t: f64, out: &%(st)s) -> bool { self.0.interp_rel(&from.0, &to.0, t, &out.0) }     //@ se.interp_is_compound [C13]
+    open spec fn enforce_rel(&self, before: &%(st)s, after: &%(st)s) -> bool { self.0.enforce_rel(&before.0, &after.0) }     //@ se.enforce_is_compound [C13]
+    open spec fn sample_set(&self, s: &%(st)s) -> bool { self.0.sample_set(&s.0) }     //@ se.sample_is_compound [C13]
+''' % dict(ty=ty, st=st)), 'se.specs.' + ty, tags=['C13']))
+    S.append(Ann('fn new', 'sig', (r'''
+        ensures
+            r is Ok ==> r.unwrap().0.wf() && r.unwrap().0.weights@ == seq![1.0f64, weight] && r.unwrap().0.subspaces@.len() == 2,      //@ se.new.weights_1_w [C13]
+            (bounds_option is Some && bounds_option.unwrap()@.len() != 3) ==> r is Err,      //@ se.new.bounds_len [C12]
+            // the components are the translation space and the rotation space, in this order, built from the given bounds
+            r is Ok ==> ({ let tb = match bounds_option { Some(b) => Some(%(tb)s), None => None };
+                           let rb = %(rb)s;
+                           &&& new_spec_RealVectorStateSpace(%(dim)s, tb) is Ok && new_spec_%(rot)s(rb) is Ok
+                           &&& r.unwrap().0.subspaces@[0] == dynbox_RealVectorStateSpace(new_spec_RealVectorStateSpace(%(dim)s, tb).unwrap())      //@ se.new.translation_first [C13]
+                           &&& r.unwrap().0.subspaces@[1] == dynbox_%(rot)s(new_spec_%(rot)s(rb).unwrap()) }),      //@ se.new.rotation_second [C13]
+''' % (dict(tb="seq![b@[0], b@[1]]", rb="match bounds_option { Some(b) => Some(b@[2]), None => None }", dim="2", rot="SO2StateSpace") if ty == 'SE2StateSpace' else
+         dict(tb="seq![b@[0], b@[1], b@[2]]", rb="None::<(SO3State, f64)>", dim="3", rot="SO3StateSpace"))), 'se.new.' + ty, ret='r', tags=['C13']))
+    S.append(Ann('fn distance', 'body-start', 'proof { ax_dc_compound(&state1.0); ax_dc_compound(&state2.0); }', 'se.distance.ax.' + ty))
+    S.append(Ann('fn interpolate', 'body-start', 'proof { ax_dc_compound(&from.0); ax_dc_compound(&to.0); }', 'se.interp.ax.' + ty))
+    S.append(Ann('fn satisfies_bounds', 'body-start', 'proof { ax_dc_compound(&state.0); }', 'se.sat.ax.' + ty))
+    return S
+
+
+ANNS = {SRC: A, ANY: B, SE2: se_anns('SE2StateSpace', 'SE2State'), SE3: se_anns('SE3StateSpace', 'SE3State')}
 
 EPILOGUE = r'''
 proof fn canary_must_fail(a: f64, b: f64)
